@@ -1,4 +1,5 @@
 import DL.Props.C06
+import DL.Gen.EntryPoints
 
 /-!
 # C16 — both entry points and the external-linter hook behave identically
@@ -64,5 +65,25 @@ example : lintInner ⟨["a"], ["a"]⟩ { file := none, lines := [] } [⟨"a", so
     (some ([⟨"x", none, .raw 1⟩], ["x"])) = [⟨"x", none, .raw 1⟩, ⟨"a", some (5, 0), .raw 0⟩] := by
   simp [lintInner, ignoreAll, collect, checkUsage, stepUsage, stepLine, fileNames, banUnknown, allDirDiags,
     Cfg.checkUnknown, cUnknown, cUnused, List.mergeSort, diagLe]
+
+/-! ## the shape of the two entry points, read off the source on every run
+
+`Gen/EntryPoints.lean` (syn translator) lists every call in the bodies of `Linter::lint_file` and
+`Linter::lint_with_ast` and the argument expressions each hands to `lint_inner`.  Re-decided on every run: `lint_file`
+is `parse_program` followed by one `lint_inner` call (plus two performance marks and the `Ok` wrapper), `lint_with_ast`
+is one `lint_inner` call (plus one mark) — nothing else, no macro — and both hand over the same four things in the same
+order: the parsed source, the default JSX factory, the default JSX fragment factory, the external linter.  This is the
+premise under which `entry_points_agree` speaks about the code (a swapped pair of factories, a configuration that is
+rewritten on the way, a second pass in one of the entry points, each makes it false). -/
+theorem entry_points_as_modelled :
+    DL.Gen.entryCalls =
+      [("lint_file", ["PerformanceMark::new", "PerformanceMark::new", "parse_program", "self.lint_inner", "Ok"]),
+       ("lint_with_ast", ["PerformanceMark::new", "self.lint_inner"])]
+    ∧ DL.Gen.lintInnerArgs =
+      [("lint_file", ["&parsed_source", "options.config.default_jsx_factory", "options.config.default_jsx_fragment_factory",
+          "options.external_linter"]),
+       ("lint_with_ast", ["parsed_source", "config.default_jsx_factory", "config.default_jsx_fragment_factory",
+          "maybe_external_linter"])] := by
+  decide
 
 end DL.Props.C16
